@@ -132,7 +132,9 @@ let handle line =
           if st <> "E" then None else
           let g = [| sc; ro; va; id; pa; ke |] in
           let (enc, dec, _) = scheme_of g in
-          Some { pr_prefix = output_prefix (variant_of va) (n_of_dec id); pr_legacy = false; pr_enc = enc; pr_dec = dec }
+          (* a KMS-envelope key has only a key manager: aead.New wraps its primitive (which knows no prefix)
+             in fullAEADPrimitiveAdapter = prim_dec with pr_legacy (unchecked ciphertext[len(prefix):]) *)
+          Some { pr_prefix = output_prefix (variant_of va) (n_of_dec id); pr_legacy = (sc = "env"); pr_enc = enc; pr_dec = dec }
         | _ -> failwith "ks entry") (String.split_on_char ';' f.(5)) in
       show (ks_dec prims (unhex f.(7)) (unhex f.(8)))
     end else begin
